@@ -1,6 +1,10 @@
 package c20
 
 import (
+	"fmt"
+	"os"
+	"runtime"
+	"runtime/debug"
 	"testing"
 
 	"verif/harness/pbt"
@@ -10,6 +14,11 @@ import (
 func TestProp(t *testing.T) {
 	r := pbt.Start(t, "C20")
 	defer r.Finish()
+	// Soft limit for the harness process: on a loaded machine the collector falls behind the
+	// allocation rate of planning thousands of distinct operations and the heap overshoots
+	// the driver's address-space limit; with the limit the collector works harder instead.
+	debug.SetMemoryLimit(2 << 30)
+	debug.SetGCPercent(50)
 	r.Rule("a case is an operation q over products.graphqls (plain rig: gRPC datasource alone; fed rig: owning subgraph + gRPC subgraph) with a reformulation q'; non-trivial when an execution issues >= 2 RPCs or the walked response contains an abstract-typed object, a nested list, a field-resolver field or a @requires field; distinct by (rig, q, q')")
 	r.Assume("gqlparser decides validity of generated operations (operations the engine's validator rejects are dropped and counted)",
 		"grpctest.MockService is the service data; units it answers randomly are found by the per-run pre-pass and excluded from the consistency oracle",
@@ -29,6 +38,11 @@ func TestProp(t *testing.T) {
 	r.RunProbes(probes())
 	unitsPart.Run(r)
 	opsPart.Run(r)
+	if os.Getenv("C20_DEBUG") != "" {
+		var m runtime.MemStats
+		runtime.ReadMemStats(&m)
+		fmt.Fprintf(os.Stderr, "MEM goroutines=%d heapInuse=%dMB heapSys=%dMB stackInuse=%dMB sys=%dMB numGC=%d\n", runtime.NumGoroutine(), m.HeapInuse>>20, m.HeapSys>>20, m.StackInuse>>20, m.Sys>>20, m.NumGC)
+	}
 }
 
 func TestReplay(t *testing.T) { pbt.StdReplay(t, "C20", dispatch()) }
